@@ -255,7 +255,8 @@ func main() {
 		"A mutation counts only when the decoded block's canonical encoding differs from the original's")
 	r.Assume(
 		"SHA-256 / Keccak-256 / secp256k1 are sound (collisions are not searched)",
-		"a part is 'genuine for slot i' iff its Index is i and its bytes are the i-th chunk of the sender's data; a part with genuine index and bytes but a tampered proof may be accepted or rejected (weakest reading: only the stored bytes matter)",
+		"a part is 'genuine for slot i' iff its Index is i and its bytes are the i-th chunk of the sender's data; a part with genuine index and bytes but a tampered proof may be accepted or rejected (weakest reading: only the stored bytes matter; such acceptances are counted in relabel_own_slot_tampered_proof_accepted)",
+		"the part-set hash is the RFC-6962 style tree of lib/merkle (SHA-256, 0x00 leaf / 0x01 inner prefix, split at the largest power of two below the count): the relabelling stage compares it with an independent implementation of that definition; that SimpleProof.Verify alone accepts relabellings with the same path is upstream behaviour and recorded as information — AddPart is the guard that is decided",
 		"a part set announcing 0 parts commits to no data: every offered part must be rejected without a panic; GetReader is not called on it (it indexes parts[0] unconditionally; its only production caller runs after a successful AddPart, which cannot happen for 0 parts)",
 		"'fails validation' = BlockFromProto (Block.ValidateBasic with the stack-trie hasher, as consensus decodes a completed proposal) or BlockExecutor.ValidateBlock returns an error; evidence *content* is checked by a stub pool that accepts everything (C19 decides evidence verification), so only the binding of evidence to the header is decided here",
 		"'id' is Block.Hash() as the property's first clause says; the part-set header, which consensus additionally votes on, is not credited",
